@@ -19,7 +19,7 @@ contract("monkeytype.tracing:CallTrace.add_yield_type", props=["C02"], theories=
 _SAMPLED = "(not bool(self.sample_rate) or draw(0) == 0)"
 _NEW = "lookup(self.traces, frame)"
 _ARGN = "seq_prefix(co_varnames(code_of(frame)), co_argcount(code_of(frame)) + co_kwonly(code_of(frame)))"
-contract("monkeytype.tracing:CallTracer.handle_call", props=["C02", "C18", "C06"], theories=TH, pure=False,
+contract("monkeytype.tracing:CallTracer.handle_call", props=["C02", "C18", "C06", "C03"], theories=TH, pure=False,
          modifies=["traces", "cache", "func", "arg_types", "return_type", "yield_type"],
          params={"self": "Tracer", "frame": "Frame"}, result="none",
          requires={"rate": "self.sample_rate is None or self.sample_rate >= 0", "locals-wf": "forall_v(lambda n: implies(has(locals_of(frame), n), wf_val(lookup(locals_of(frame), n))))",
@@ -72,7 +72,7 @@ _RET_POSTS = {
 _RET_REQ = {"arg-wf": "wf_val(arg)", "protocol": "cause(frame) is CAUSE_yield or cause(frame) is CAUSE_await_suspend or cause(frame) is CAUSE_return or cause(frame) is CAUSE_unwind",
             "unwind-arg": "implies(cause(frame) is CAUSE_unwind, arg is None)",
             "trace-wf": "implies(%s, %s is not None and %s.return_type is None)" % ("has(self.traces, frame)", "lookup(self.traces, frame)", "lookup(self.traces, frame)")}
-contract("monkeytype.tracing:CallTracer.handle_return", props=["C02", "C18"], theories=TH, pure=False,
+contract("monkeytype.tracing:CallTracer.handle_return", props=["C02", "C18", "C03"], theories=TH, pure=False,
          modifies=["traces", "return_type", "yield_type"], effects="log",
          params={"self": "Tracer", "frame": "Frame", "arg": "Val"}, result="none",
          requires=_RET_REQ, ensures=_RET_POSTS,
@@ -127,7 +127,10 @@ contract("monkeytype.tracing:trace_calls", props=["C03", "C06"], theories=TH, pu
          raises={"Exception": None})
 
 # ---- function lookup (C02: "attributed to the function whose code ran")
-contract("monkeytype.tracing:_has_code", props=["C02"], theories=TH + ["cli"],
+contract("monkeytype.tracing:_has_code", props=["C02", "C03"], theories=TH + ["cli"],
+         # carve-out (known finding C03-has-code-getattr): getattr(cand, "__code__"/"__wrapped__", None) runs __getattribute__ / __getattr__ of
+         # candidates that are not genuine functions (callables found in the locals of previous frames, module globals named like the function)
+         carve={"safe:effect:getattr": "C03-has-code-getattr"},
          params={"func": "Opt[Callee]", "code": "Code"}, result="Opt[Callee]",
          ensures={"post:code": "implies(result is not None, callee_code(result) is code)",
                   "post:found-direct": "implies(func is not None and callee_code(func) is code, result is func)"},
@@ -135,7 +138,7 @@ contract("monkeytype.tracing:_has_code", props=["C02"], theories=TH + ["cli"],
          note="termination of the __wrapped__ walk is not claimed (a cyclic chain loops in the real code as well)")
 
 
-contract("monkeytype.tracing:get_func_in_mro", props=["C02"], theories=TH + ["cli"],
+contract("monkeytype.tracing:get_func_in_mro", props=["C02", "C03"], theories=TH + ["cli"],
          params={"obj": "Val", "code": "Code"}, result="Opt[Callee]",
          ensures={"post:code": "implies(result is not None, callee_code(result) is code)"})
 
@@ -143,7 +146,7 @@ contract("monkeytype.tracing:get_locals_from_previous_frames", props=["C02"], th
          params={"frame": "Frame"}, result="Seq[Callee]", ensures={"post:def": "result is prev_locals(frame)"},
          note="generator over frame.f_back chains: the values of the locals of the frame and of all its callers")
 
-contract("monkeytype.tracing:get_func", props=["C02"], theories=TH + ["cli"],
+contract("monkeytype.tracing:get_func", props=["C02", "C03"], theories=TH + ["cli"],
          params={"frame": "Frame"}, result="Opt[Func]",
          # attributed to the function whose code ran: whatever the four lookup stages find has exactly the frame's code object
          ensures={"post:code": "implies(result is not None, callee_code(result) is code_of(frame))"},
